@@ -111,6 +111,12 @@ def rule_blocking(ctx):
         seen_cb.add((kind, cb.id))
         anchor = "%s|%s" % (cb.id, kind)
         adds = [s for s in cb.calls() if callee_matches(callee_of(s), r"sat_solver::SatSolver::add_clause$")]
+        if not adds:
+            # the closure hands the work to a named function / method that adds the clause: its body is not followed
+            deleg = [t for _, t in prog.callees(cb, include_closures=False, virtual_dispatch=False) if t.kind != "closure" and any(callee_matches(callee_of(x), r"sat_solver::SatSolver::add_clause$") for y in prog.reachable_from([t], virtual_dispatch=False).values() for x in y.calls())]
+            if deleg:
+                r.ok(anchor, "NOT decided: the %s function delegates to %s, which adds the clause" % (kind, deleg[0].path.rsplit("::", 1)[-1]), cb.loc())
+                continue
         if not r.check(len(adds) == 1 and cb.postdominates(adds[0], (0, -1)), anchor, "no-blocking-clause", "adds exactly one clause on every path", "the %s function does not add a blocking clause on every path: the same set can be found again" % kind, cb.loc()):
             continue
         a = adds[0]
@@ -184,6 +190,9 @@ def rule_blocking(ctx):
     r.floor(n2, 1, "same-range searches")
     # polarity of the two halves of the split in the same-range search: members as they are, complement negated
     inst_ids = {cb.id for _, cb, _, _ in inst}
+    for _, cb, _, _ in inst:
+        for y in prog.reachable_from([cb], virtual_dispatch=False).values():
+            inst_ids.add(y.id)
     n3 = 0
     for b in prog.lib_bodies():
         fnb = prog.enclosing_fn(b)
@@ -287,7 +296,9 @@ def rule_driver_loops(ctx):
                 if subj is None:
                     continue
                 srcs = origins(b, subj[0], transparent=())
-                is_state = any(o.kind == "call" and callee_matches(o.data, r"MaximalExtensionComputer::state$") for o in srcs) or any("MaximalExtensionComputerState" in b.local_ty(subj[0]["l"]) for _ in [0])
+                from .satlayer import place_ty as _place_ty
+
+                is_state = any(o.kind == "call" and callee_matches(o.data, r"MaximalExtensionComputer::state$") for o in srcs) or "MaximalExtensionComputerState" in b.local_ty(subj[0]["l"]) or "MaximalExtensionComputerState" in (_place_ty(b, subj[0]) or "")
                 cmp_state = any(o.kind == "call" and callee_decl(o.data) in ("core::cmp::PartialEq::ne", "core::cmp::PartialEq::eq") for o in srcs)
                 if not (is_state or cmp_state):
                     continue
@@ -433,6 +444,14 @@ def rule_model_tracks_extension(ctx):
                     pend += origins(b, o.site.node["rv"]["ops"][0], transparent=())
                 else:
                     pend.append(o)
+            # a set decoded from a model: the answer is the model's
+            more = []
+            for oo in pend:
+                if oo.kind == "call" and callee_matches(oo.data, r"assignment_to_extension$"):
+                    for a in oo.site.node["args"]:
+                        if op_place(a) is not None:
+                            more += [x for x in origins(b, a, transparent=()) if x.kind in ("call", "param")]
+            pend += more
             for oo in pend:
                 if oo.kind == "call" and "sat::sat_solver::Assignment" in b.local_ty(oo.site.node["dst"]["l"]):
                     out.add(("call", oo.site.bb, oo.site.si))
@@ -550,13 +569,39 @@ def _selector_identity(prog, b, l):
     return None
 
 
-def _solver_used_again(prog, b, s, solves):
+class _CallAsSolve:
+    """a call site of a helper, seen as a SAT call on the solver it hands over (argument k)"""
+
+    def __init__(self, site, k):
+        self.bb, self.si = site.bb, site.si
+        self.node = {"args": [site.node["args"][k]]}
+
+
+def _solver_used_again(prog, b, s, solves, _depth=0):
     """can the SAT solver object of solve call s make another SAT call: s runs in a loop the solver outlives, another solve site on it is
     reachable without passing its creation, or the object is shared (handed to a function / a maximal-extension computer)"""
     from .provenance import _solver_creations
 
     cr = _solver_creations(prog, b, s.node["args"][0])
     sites = [x[2] for x in cr if x[0] == "site" and x[1] is b]
+    if cr and all(x[0] == "passed-in" for x in cr) and b.kind != "closure" and _depth < 2:
+        # a helper working on the solver it is given: judged at its call sites (the call stands for the SAT calls inside)
+        k = None
+        for o in origins(b, s.node["args"][0]):
+            if o.kind == "param":
+                k = o.data
+        cs = prog.callers_of(b)
+        if k is not None and cs:
+            res = []
+            for c in cs:
+                if k - 1 >= len(c.node["args"]):
+                    return True
+                other_solves_here = [x for x in b.calls() if x.bb != s.bb and callee_matches(callee_of(x), SOLVE) and b.reaches(s.bb, x.bb)]
+                if other_solves_here:
+                    return True
+                fake = _CallAsSolve(c, k - 1)
+                res.append(_solver_used_again(prog, c.body, fake, [x for x in c.body.calls() if callee_matches(callee_of(x), SOLVE) or prog.body_for_callee(callee_of(x), c.body) is b], _depth + 1))
+            return any(res)
     if not sites or len(sites) != len(cr):
         return True  # created elsewhere / passed in: assume shared
     loops = dict(b.loops())
